@@ -115,11 +115,19 @@ pub fn c17_bad_member_state255<S: Src>(s: &mut S) {
 
 /// One trailing byte right after the header.
 pub fn c17_trailing_byte<S: Src>(s: &mut S) {
+    trailing_byte(s, 8)
+}
+pub fn c17_trailing_byte_ping<S: Src>(s: &mut S) {
+    trailing_byte(s, 0)
+}
+pub fn c17_trailing_byte_turn_undead<S: Src>(s: &mut S) {
+    trailing_byte(s, 10)
+}
+fn trailing_byte<S: Src>(s: &mut S, tag: u8) {
     let mut f = arb_foca(s, Shape::k(1));
     let pre = snap(&f);
     let src = Id::arb(s);
     s.assume(src.addr != pre.identity.addr);
-    let tag = if s.bool() { 0 } else { 10 }; // Ping / TurnUndead (concrete kinds)
     let h = header_bytes(src, s.u16(), pre.identity, tag, Id::arb(s), s.u8());
     let mut data = [0u8; 11];
     data[..HDR].copy_from_slice(&h);
